@@ -17,8 +17,14 @@ CFG = dict(
     stages=[
         seq("asan", "asan", SRC, Q_ASAN, 0),
         seq("rel", "rel", SRC, Q_REL, 0),
+        # the same cases in a process whose libc locale is a single-byte one (0xC0-0xFF are letters): results must not change
+        seq("asan_latin1", "asan", SRC, Q_ASAN, Q_ASAN, env={"VERIF_LOCALE": "latin1"}),
         seq("asan_deep", "asan", SRC, 0, T_ASAN, params=DEEP),
         seq("rel_deep", "rel", SRC, 0, T_REL, params=DEEP),
+        # reentrancy: 2..8 threads run PRNG-derived workloads on this module at once; each thread's digest of everything it
+        # observed must equal the digest of the same workload run alone (harness/mt_pure.c); p0 = rounds per thread
+        seq("mt_tsan", "tsan", "mt_pure.c", 32, 3200, mode="uri", params={0: 150}, wrap=True, leak=False),
+        seq("mt_rel", "rel", "mt_pure.c", 32, 3200, mode="uri", params={0: 1500}, leak=False),
     ],
     rule=("case index < 246960: one element of the full cross product scheme{absent,http,https,s3,a} x userinfo{absent,u,u:p,u:,:p,empty} x "
           "host{example.com,10.0.0.1,[::1],[2001:db8::8:800:200c:417a],empty,h} x port{absent,empty,0,1,80,65535,65536,4294967295,"
